@@ -9,22 +9,30 @@ import GenlmModel.Model.Linear
 (strongly connected components with their closure matrices as `_closure` computed them) and the
 naming function `bot x = (x, "bot")`.  `unaryGraph` mirrors `_unary_graph`, so the inputs can be
 instantiated with `(unaryGraph G).E` and `mkBlocks (unaryGraph G) star bl` for a decomposition
-`bl` accepted by `sccCheck`. -/
+`bl` accepted by `sccCheck`.
+
+Both instantiations are run against the real code by `harness/props/cfg_transforms.py` (driver
+transformations `unarycycleremove`: `A`, `blocks` as the real call computed them;
+`unarycycleremove_full`: only the order of the blocks is taken from the code, graph, SCC check,
+closures and the rules are the model's). -/
 namespace Genlm
 section
 variable {σ K : Type} [DecidableEq σ] [DecidableEq K] [Add K] [Mul K] [Zero K] [One K]
 
 /-- the loop `A[r.head, r.body[0]] += r.w` of `_unary_graph` on the chart `E`.
-`WeightedGraph.__setitem__` stores the new value only if it is different from zero (and only then
-registers the key in `incoming`/`outgoing`); when the updated value *is* zero the chart keeps
-its old value.  Several entries for one key accumulate (`wlook`). -/
+`WeightedGraph.__setitem__` stores the new value if it is different from zero (and then registers
+the key in `incoming`/`outgoing`); when the updated value *is* zero it deletes the key from `E`
+and from `incoming`/`outgoing` (`del self.E[i, j]`, fix 44ba871 — before that fix the chart kept
+the old, stale value).  Several entries for one key accumulate (`wlook`); deleting a key removes all
+of its entries. -/
 def unaryGraphEdges (V : List σ) : List (Rule σ K) → List ((σ × σ) × K) → List ((σ × σ) × K)
   | [], es => es
   | r :: rs, es =>
     match r.body with
     | [y] =>
       if y ∈ V then unaryGraphEdges V rs es
-      else if wlook es (r.head, y) + r.w = 0 then unaryGraphEdges V rs es
+      else if wlook es (r.head, y) + r.w = 0 then
+        unaryGraphEdges V rs (es.filter fun e => e.1 ≠ (r.head, y))
       else unaryGraphEdges V rs (es ++ [((r.head, y), r.w)])
     | _ => unaryGraphEdges V rs es
 
@@ -33,6 +41,25 @@ value), then `A.N |= self.N`. -/
 def unaryGraph (G : CFG σ K) : WGraph σ K :=
   { nodes := linDedup (nonterminals G ++ (unaryEdges G).flatMap fun e => [e.1, e.2]),
     edges := unaryGraphEdges G.V G.rules [] }
+
+/-- no unary rule of non-zero weight lost its key in `E` to a cancellation: the (decidable)
+hypothesis under which the blocks of `_unary_graph()` are the strongly connected components of the
+graph of the unary *rules*.  It always holds where non-zero weights cannot cancel
+(`UCycleAux.unaryGraph_arcs`). -/
+def unaryArcsComplete (G : CFG σ K) : Bool :=
+  G.rules.all fun r =>
+    match r.body with
+    | [y] => decide (y ∈ G.V) || decide (r.w = 0) || decide ((r.head, y) ∈ (unaryGraph G).arcs)
+    | _ => true
+
+/-- `has_unary_cycle`, given `bl = self._unary_graph().blocks`: `f.get(x)` is `blockIdx bl x`
+(`None`, for a symbol in no block, is `bl.length`); the test is applied to every rule with a body
+of length one, terminal or not, exactly as the code does. -/
+def hasUnaryCycle (bl : List (List σ)) (G : CFG σ K) : Bool :=
+  G.rules.any fun r =>
+    match r.body with
+    | [y] => decide (blockIdx bl r.head = blockIdx bl y)
+    | _ => false
 
 /-- the set `acyclic`: nodes `X` of singleton blocks with `G[X, X] == zero` -/
 def ucAcyclic (A : σ → σ → K) (blocks : List (Block σ K)) : List σ :=
